@@ -140,14 +140,18 @@ def semantic_filter_output(ctx):
         ctx.ok('CFG-4', inst, where_, 'written exactly once, to %s' % sorted(per))
         ctx.expect(ok_rec, 'CFG-4', inst + ': the record written is the record read', where_, 'unchanged', 'a record is modified (or another object is written) before it reaches the file', 'modified-before-write')
         gg = per.get('GOOD', Poly())
+        # the records are ranked (C04): the smallest defined chi^2 is the first one - nanmin(chi2) is chi2[0]; min(chi2) is not: one undefined chi^2 in the tail
+        # (a model with no flux in a band, kept by the 'A' and 'N' selectors) makes it undefined and the comparison false
+        first_ = best
+        gg = alg.rebuild(gg, lambda a: first_ if a[0] == 'fn' and a[1] == 'nanmin' and len(a) == 3 and a[2] == ('B', R, sym('chi2', R).key()) else None)
         if alg.is_zero(gg - g)[0]:
             ctx.ok('ALG-17', inst + ': selector', where_, 'good file exactly when %s' % alg.show(g, 140))
         else:
             syms, fns = alg.leaf_syms(gg - g)
-            if syms <= {'chi2', 'valid', 'chi', 'cpd'} and fns <= {'at', 'len'}:
+            if syms <= {'chi2', 'valid', 'chi', 'cpd'} and fns <= {'at', 'len', 'min', 'max', 'nanmax'}:
                 ctx.violation('ALG-17', inst + ': selector', where_, 'written to the good file when %s ; the statement says %s' % (alg.show(gg, 140), alg.show(g, 140)), 'selector')
             else:
-                ctx.undecided('ALG-17', inst + ': selector', where_, 'condition %s not decided' % alg.show(gg, 140)); decided = False
+                ctx.undecided('ALG-17', inst + ': selector', where_, 'condition %s not decided (it is built from %s)' % (alg.show(gg, 140), sorted(syms | fns))); decided = False
         names = {n for n, m in h.opened}
         ctx.expect({'IN', 'GOOD', 'BAD'} <= names and {'IN', 'GOOD', 'BAD'} <= set(h.closed), 'CFG-4n', inst + ': files', where_, 'reads the input, writes the two named outputs, closes all three',
                    'opened %s, closed %s' % (sorted(map(str, names)), sorted(map(str, h.closed))), 'files')
